@@ -1,55 +1,179 @@
+// simworker executes simulated runs for one property. It is driven by /verif/check.
+//
+//	simworker batch  -prop C19 -tier quick -seed 1 -from 0 -n 8
+//	simworker replay -prop C19 -tier quick -tape file.json
+//	simworker shrink -prop C19 -tier quick -tape file.json -class X -budget 300
+//
+// Output: one JSON object per line on stdout. Exit 0 on normal completion
+// (violations are data, not exit codes), exit 2 on harness trouble.
 package main
 
 import (
+	"bufio"
+	"encoding/json"
+	"flag"
 	"fmt"
+	"os"
+	"runtime/debug"
 	"time"
 
-	"cosmossdk.io/math"
-	sdk "github.com/cosmos/cosmos-sdk/types"
-	"github.com/palomachain/paloma/v2/app"
-	valsettypes "github.com/palomachain/paloma/v2/x/valset/types"
+	palomamempool "github.com/palomachain/paloma/v2/app/mempool"
+	"verifsim/core"
+	"verifsim/props"
 	"verifsim/world"
 )
 
-func main() {
-	defer world.CleanupScratch()
+type RunOut struct {
+	Prop       string            `json:"prop"`
+	Tier       string            `json:"tier"`
+	Run        uint64            `json:"run"`
+	Seed       uint64            `json:"seed"`
+	Violations []*core.Violation `json:"violations"`
+	Notes      []core.Note       `json:"notes,omitempty"`
+	Stats      *core.Stats       `json:"stats"`
+	Blocks     int64             `json:"blocks"`
+	SimSeconds int64             `json:"sim_seconds"`
+	KindSig    string            `json:"kind_sig"`
+	Digest     string            `json:"digest"`
+	Events     int               `json:"events"`
+	TapeLen    int               `json:"tape_len"`
+	Tape       []uint64          `json:"tape,omitempty"`
+	Sample     []string          `json:"sample,omitempty"`
+	TraceTail  []string          `json:"trace_tail,omitempty"`
+	Harness    string            `json:"harness_error,omitempty"`
+	WallMs     int64             `json:"wall_ms"`
+}
+
+func execute(s props.Scenario, prop, tier string, runIdx, seed uint64, tape *core.Tape, keepTape bool) (out RunOut) {
 	t0 := time.Now()
-	n := world.NewNode(nil, "sim-1")
-	fmt.Println("new", time.Since(t0))
-	var vals []world.ValidatorSpec
-	for i := 0; i < 4; i++ {
-		a := world.NewAccount(1, fmt.Sprintf("val%d", i), nil)
-		vals = append(vals, world.ValidatorSpec{Acct: a, Cons: world.ConsKey(1, a.Name), Stake: math.NewInt(1_000_000_000 * int64(i+1))})
+	// every source of randomness below us is derived from the run seed
+	palomamempool.VerifResetSkiplistSeed(int64(seed))
+	r := core.NewRun(prop, seed, tier, tape)
+	out = RunOut{Prop: prop, Tier: tier, Run: runIdx, Seed: seed}
+	func() {
+		defer func() {
+			if rec := recover(); rec != nil {
+				if he, ok := rec.(core.HarnessError); ok {
+					out.Harness = he.Error()
+				} else {
+					out.Harness = fmt.Sprintf("panic in harness: %v\n%s", rec, debug.Stack())
+				}
+			}
+		}()
+		out.Violations = s(r)
+	}()
+	if tape.Overrun {
+		out.Harness = "tape overrun (runaway draw loop)"
 	}
-	user := world.NewAccount(1, "user", nil)
-	spec := &world.GenesisSpec{ChainID: "sim-1", GenesisTime: time.Unix(1_700_000_000, 0).UTC(), Validators: vals,
-		Accounts: []world.FundedAccount{{Acct: user, Coins: sdk.NewCoins(sdk.NewCoin(app.BondDenom, math.NewInt(1000000)))}}}
-	n.InitChain(spec)
-	fmt.Println("init", time.Since(t0), len(n.Validators()))
-	tm := spec.GenesisTime
-	for i := 0; i < 120; i++ {
-		tm = tm.Add(1600 * time.Millisecond)
-		if i == 3 {
-			msg := &valsettypes.MsgKeepAlive{PigeonVersion: "v2.0.0", Metadata: valsettypes.MsgMetadata{Creator: vals[0].Acct.Bech32(), Signers: []string{vals[0].Acct.Bech32()}}}
-			r := n.Submit(vals[0].Acct, msg)
-			fmt.Println("submit", r.Accepted(), r.Err, r.Check)
-		}
-		br := n.ProduceBlock(world.BlockOpts{Time: tm, ProposerIdx: i})
-		if br.Err != nil || br.Panic != "" {
-			fmt.Println("block fail", br.Err, br.Panic, br.PanicStack)
-			return
-		}
-		if len(br.Txs) > 0 {
-			fmt.Println("h", br.Height, "txs", len(br.Txs), br.Results[0].Code, br.Results[0].Log)
-		}
-		if i == 60 {
-			n.Restart()
-		}
+	out.Notes = r.Notes
+	out.Stats = r.Stats
+	out.Blocks = r.Blocks
+	out.SimSeconds = r.SimSeconds
+	out.KindSig = r.Trace.KindSig()
+	out.Digest = r.Trace.Digest()
+	out.Events = r.Trace.N
+	out.TapeLen = len(tape.Used())
+	out.Sample = r.Sample
+	if len(out.Violations) > 0 || keepTape || out.Harness != "" {
+		out.Tape = append([]uint64(nil), tape.Used()...)
+		out.TraceTail = r.Trace.Tail(60)
 	}
-	fmt.Println("done", time.Since(t0), n.Height, fmt.Sprintf("%x", n.LastAppHash))
-	for _, r := range n.Logger.Drain() {
-		if r.Level == "error" {
-			fmt.Println(r.Level, r.Msg, r.KV)
+	out.WallMs = time.Since(t0).Milliseconds()
+	return out
+}
+
+type tapeFile struct {
+	Prop string   `json:"property"`
+	Tier string   `json:"tier"`
+	Seed uint64   `json:"seed"`
+	Tape []uint64 `json:"tape"`
+}
+
+func readTape(path string) tapeFile {
+	bz, err := os.ReadFile(path)
+	if err != nil {
+		fmt.Fprintln(os.Stderr, "read tape:", err)
+		os.Exit(2)
+	}
+	var tf tapeFile
+	if err := json.Unmarshal(bz, &tf); err != nil {
+		fmt.Fprintln(os.Stderr, "parse tape:", err)
+		os.Exit(2)
+	}
+	return tf
+}
+
+func main() {
+	if len(os.Args) < 2 {
+		fmt.Fprintln(os.Stderr, "usage: simworker batch|replay|shrink|list ...")
+		os.Exit(2)
+	}
+	cmd := os.Args[1]
+	fs := flag.NewFlagSet(cmd, flag.ExitOnError)
+	prop := fs.String("prop", "", "property id")
+	tier := fs.String("tier", "quick", "quick|thorough")
+	seed := fs.Uint64("seed", 1, "batch seed (VERIF_SEED)")
+	from := fs.Uint64("from", 0, "first run index")
+	n := fs.Uint64("n", 1, "number of runs")
+	tapePath := fs.String("tape", "", "tape file")
+	class := fs.String("class", "", "violation class to preserve while shrinking")
+	budget := fs.Int("budget", 300, "shrink budget (executions)")
+	keep := fs.Bool("keep-tape", false, "always emit the tape")
+	fs.Parse(os.Args[2:])
+
+	defer world.CleanupScratch()
+	w := bufio.NewWriter(os.Stdout)
+	defer w.Flush()
+	enc := json.NewEncoder(w)
+
+	if cmd == "list" {
+		for _, id := range props.IDs() {
+			fmt.Fprintln(w, id)
 		}
+		return
+	}
+	s, ok := props.Get(*prop)
+	if !ok {
+		fmt.Fprintln(os.Stderr, "unknown property", *prop)
+		w.Flush()
+		world.CleanupScratch()
+		os.Exit(2)
+	}
+	props.Init()
+	switch cmd {
+	case "batch":
+		for i := *from; i < *from+*n; i++ {
+			rs := core.DeriveSeed(*seed, *prop+"/"+*tier, i)
+			out := execute(s, *prop, *tier, i, rs, core.NewTape(rs), *keep)
+			enc.Encode(out)
+			w.Flush()
+		}
+	case "replay":
+		tf := readTape(*tapePath)
+		out := execute(s, *prop, *tier, 0, tf.Seed, core.ReplayTape(tf.Tape), true)
+		enc.Encode(out)
+	case "shrink":
+		tf := readTape(*tapePath)
+		execs := 0
+		test := func(c []uint64) bool {
+			execs++
+			out := execute(s, *prop, *tier, 0, tf.Seed, core.ReplayTape(c), false)
+			if out.Harness != "" {
+				return false
+			}
+			for _, v := range out.Violations {
+				if v.Property == *prop && v.Class == *class {
+					return true
+				}
+			}
+			return false
+		}
+		min, _ := core.Shrink(tf.Tape, test, *budget)
+		out := execute(s, *prop, *tier, 0, tf.Seed, core.ReplayTape(min), true)
+		out.Tape = min
+		enc.Encode(map[string]any{"shrunk": out, "executions": execs, "orig_len": len(tf.Tape), "min_len": len(min)})
+	default:
+		fmt.Fprintln(os.Stderr, "unknown command", cmd)
+		os.Exit(2)
 	}
 }
